@@ -469,6 +469,14 @@ func (u *Unit) modTargets(st *State, env *specEnv, m Clause) (ts []modTarget, er
 			name = id.Name
 		}
 		switch name {
+		case "backing":
+			v := u.specEval(env, x.Args[0])
+			if v.Kind == KSlice {
+				el := v.T.Underlying().(*types.Slice).Elem()
+				hn, _ := u.elemHeapName(el)
+				return []modTarget{{hn, v.Arr, nil}}, nil
+			}
+			return nil, fmt.Errorf("%s: backing() of non-slice", m.Where)
 		case "content":
 			v := u.specEval(env, x.Args[0])
 			if v.Kind == KSlice {
@@ -582,6 +590,17 @@ func (u *Unit) havocTarget(st *State, env *specEnv, m Clause) (err error) {
 			name = id.Name
 		}
 		switch name {
+		case "backing":
+			v := u.specEval(env, x.Args[0])
+			if v.Kind == KSlice {
+				el := v.T.Underlying().(*types.Slice).Elem()
+				if isSliceT(el) {
+					return fmt.Errorf("%s: backing() of slice-of-slices unsupported", m.Where)
+				}
+				u.setElemArray(st, el, v.Arr, u.fresh("content", sArr(SInt, sortOf(el))))
+				return nil
+			}
+			return fmt.Errorf("%s: backing() of non-slice", m.Where)
 		case "content":
 			v := u.specEval(env, x.Args[0])
 			if v.Kind == KSlice {
